@@ -149,6 +149,8 @@ def gen_params(ctx):
             for nta, nt in ((0, 1), (1, 2), (2, 3), (2, 2)):
                 p = calib.random_params(rng, double, quick=True, nta=nta, nt=nt, nx=int(rng.integers(12, 16)) if nta == 0 else int(rng.integers(20, 26)),
                                         noise=float(rng.choice([0.0, 0.002, 0.01])), ta_on_ref=bool(nta and rng.random() < 0.5))
+                if nta == 2:
+                    p["ta_reversed"] = bool(nt == 2)   # one of the two-splice rows lists the splices downstream-first
                 out.append(p)
             combos = [("gamma", 0.0), ("gamma", 1e-3), ("alpha", 1e-6), ("alpha+gamma", 1e-6)] + ([("dalpha", 1e-6), ("gamma+dalpha", 1e-6)] if not double else [])
             for fix, var in combos:
